@@ -18,7 +18,7 @@ func init() {
 			"(b) the value stored on the miss path and the value returned derive from the same response field and the key stored is the root parameter; " +
 			"(c) the fetch's failure edge returns a non-nil error derived from the fetch error; (d) block-event handlers store (Block, Slot) of the same event; " +
 			"(e) every delete on the map is guarded by slot < minSlot with minSlot = FirstSlotOfEpoch(CurrentEpoch()-margin) — or, when cleaning swaps in a filtered copy, an entry is left out only on that edge and the scan and the swap are one write-locked critical section (no concurrent insert is lost) —, the subtraction is guarded, lock pairing and guarded-by hold for the map. " +
-			"Added with the third seeding round: (f) the header strategy the cache fetches from asks the nodes with the caller's options, passes on every successful answer, and does not coalesce requests under a key that is not taken from the request. Added with the fourth seeding round: (g) the chain time service never rounds (shared with C03.m). NOT decided: that the beacon node's header belongs to the root; the size of the retention window; interleavings.",
+			"Added with the third seeding round: (f) the header strategy the cache fetches from asks the nodes with the caller's options, passes on every successful answer, and does not coalesce requests under a key that is not taken from the request. Added with the fourth seeding round: (g) the chain time service never rounds (shared with C03.m). Added with the fifth seeding round: (h) the head-event handler withholds its store into the block-root/slot cache only when the event itself is unusable. NOT decided: that the beacon node's header belongs to the root; the size of the retention window; interleavings.",
 		Technique:   "SSA value provenance of returned and stored slots, guard/edge-deletion queries on the presence flag and on the cleaning comparison, error-nilness analysis of the failure edge, lock-set dataflow (pairing, guarded-by, one-critical-section for filter-and-swap)",
 		Rule:        "one obligation per (rule, return/store/delete/handler site) in the implementers of BlockRootToSlot/SetBlockRootToSlot and the functions touching the blockRootToSlot map; non-trivial = the site exists in the code and a path/provenance query was evaluated for it",
 		Assumptions: []string{"go-eth2-client returns a non-nil response with non-nil Data.Header.Message when err == nil (library decoder contract)"},
@@ -386,6 +386,56 @@ func runC18(p *core.Prog, r *core.Report, tier string) {
 		}
 	}
 	c18Fetcher(p, r, ds)
+	// (h) every block event is recorded: in the cache's block handler the branches that decide whether the store is
+	// reached are the assertion/nil tests of the event itself — nothing remembered from earlier events (a second
+	// block at the same slot, from a fork, is another root and must be recorded as well)
+	nHB := 0
+	for _, f := range p.FuncsIn(cacheRel) {
+		if f.Name() != "handleBlock" {
+			continue
+		}
+		for _, ci := range core.Calls(f, func(c *ssa.CallCommon) bool {
+			callee := c.StaticCallee()
+			return callee != nil && callee.Name() == "SetBlockRootToSlot"
+		}) {
+			nHB++
+			k := 0
+			for _, di := range decidingIfs(f, ci.(ssa.Instruction)) {
+				k++
+				c := core.DecodeCond(ds, di.If)
+				okc := false
+				switch {
+				case c.B != nil && c.B.Val != nil:
+					if ex, ok := c.B.Val.(*ssa.Extract); ok {
+						if _, isTA := ex.Tuple.(*ssa.TypeAssert); isTA {
+							okc = true
+						}
+					}
+				case c.Op != "":
+					okc = (c.X.Kind == "const" && c.X.Name == "nil" || c.Y.Kind == "const" && c.Y.Name == "nil") &&
+						!c.X.Any(func(x *core.VD) bool { return x.Kind == "field" && strings.HasSuffix(x.String(), "s.") }) // placeholder, refined below
+					// a nil test of something held in the service (remembered from earlier events) is not a test of this event
+					held := func(d *core.VD) bool {
+						return d.Any(func(x *core.VD) bool {
+							if fa, ok := x.Val.(*ssa.FieldAddr); ok {
+								if id, _, ok := core.FieldOfAddr(fa); ok && strings.HasSuffix(id.Owner, ".Service") {
+									return true
+								}
+							}
+							return false
+						})
+					}
+					if held(c.X) || held(c.Y) {
+						okc = false
+					}
+				}
+				r.Check(okc, "C18.h", fmt.Sprintf("%s|store#%d|condition#%d", core.FnKey(f), nHB, k), p.Pos(core.IfPos(di.If)), "the store is withheld only when the event itself is unusable",
+					"a block event can be left unrecorded on a condition that is not an assertion/nil test of the event itself (e.g. 'a block for this slot was already seen'): a second block at the same slot is another root, and its slot is then unknown to the cache")
+			}
+		}
+	}
+	r.Floor("C18.h stores in the cache's block handler", nHB, 1)
+
 	// (g) the retention window is measured from the epoch that has started: the clock the cleaner uses never rounds up
 	checkChainTimeTruncates(p, r, "C18.g", "shortly before an epoch boundary the cleaner's cut-off moves a whole epoch forward and entries still inside the retention window are removed")
 }
